@@ -201,4 +201,154 @@ theorem loop0 : ∀ (f : Nat) (k : ThetaSt OSt) (m : St), k.fault = none → k.o
       · rw [r6, logs_append]; simp [logs, mDbls, mSteps, mKers]
 end Loop0
 
+
+/-! ### the simulation relation -/
+
+/-- invariant between the integer state `k` of the generated skeleton (with the order-tracking observer) and the state
+    `m` of the hand model; `g` is what the arrays Q1/Q2 hold (`m.q` except while the gluing is being evaluated) -/
+structure RelQ (P : Params) (g : Nat → Option Nat) (k : ThetaSt OSt) (m : St) : Prop where
+  kf : k.fault = none
+  kb : k.obs.bad = false
+  me : m.err = none
+  ix : k.index = (m.index : Int)
+  ll : k.len_list = m.lenList
+  lc : k.len_count = m.lenCount
+  ad : k.adjusting = (P.adj : Int)
+  lvs : k.level.size = (P.n : Int)
+  lvg : ∀ i : Nat, k.level.get (i : Int) = (m.level i).map Int.ofNat
+  s1 : k.obs.size 1 = (P.n : Int)
+  s2 : k.obs.size 2 = (P.n : Int)
+  s3 : k.obs.size 3 = (P.n : Int)
+  s4 : k.obs.size 4 = (P.n : Int)
+  s5 : k.obs.size 5 = (P.n : Int) - 1
+  a1 : ∀ i : Nat, k.obs.arr 1 (i : Int) = m.pts i
+  a2 : ∀ i : Nat, k.obs.arr 2 (i : Int) = m.pts i
+  a3 : ∀ i : Nat, k.obs.arr 3 (i : Int) = g i
+  a4 : ∀ i : Nat, k.obs.arr 4 (i : Int) = g i
+  tg : k.obs.tog = false
+  lg : (k.obs.dbls, k.obs.steps, k.obs.kers) = logs P.n P.eightAbove m.trace
+
+abbrev Rel (P : Params) (k : ThetaSt OSt) (m : St) : Prop := RelQ P m.q k m
+
+/-! ### building `points1/2[]` -/
+
+theorem buildPts_err (P : Params) (cnt i : Nat) (s : St) (h : s.err.isSome = true) : buildPts P cnt i s = s := by
+  cases cnt <;> simp [buildPts, h]
+
+/-- hand-model state after one iteration of the construction of `points[]` -/
+def ptsd (m : St) (i b o : Nat) : St :=
+  { m with pts := upd m.pts i (some (o - b)), level := upd m.level i (some b), trace := m.trace ++ [.pts i b (o - b)] }
+
+theorem buildPts_inv (P : Params) (cnt i : Nat) (m : St) (he0 : m.err = none)
+    (he : (buildPts P (cnt + 1) i m).err = none) :
+    ∃ (h : i - 1 < P.row.length) (o : Nat), 1 ≤ i ∧ i < P.n ∧ m.pts (i - 1) = some o ∧
+      buildPts P (cnt + 1) i m = buildPts P cnt (i + 1) (ptsd m i P.row[i - 1] o) := by
+  by_cases h : i - 1 < P.row.length
+  · refine ⟨h, ?_⟩
+    by_cases hidx : (idxOK (i : Int) P.n && idxOK ((i : Int) - 1) P.n) = true
+    · have hidx' := hidx
+      simp [idxOK] at hidx'
+      cases ho : m.pts (i - 1) with
+      | none => simp [buildPts, he0, h, hidx, ho, St.fail] at he
+      | some o =>
+        refine ⟨o, by omega, by omega, rfl, ?_⟩
+        simp [buildPts, he0, h, hidx, ho, St.emit, ptsd]
+    · simp [buildPts, he0, h, hidx, St.fail] at he
+  · simp [buildPts, he0, h, St.fail] at he
+
+section Loop1
+variable (P : Params) (oracle : Nat → Bool) (fuel : Nat) (ea : Int)
+
+theorem body1 (k : ThetaSt OSt) (j b v w : Nat) (hf : k.fault = none) (hb : k.obs.bad = false)
+    (hi : k.i = (j : Int) + 1) (hrd : rdRow P.row (j : Int) = .ok (b : Int))
+    (hs1 : k.obs.size 1 = (P.n : Int)) (hs2 : k.obs.size 2 = (P.n : Int)) (hls : k.level.size = (P.n : Int))
+    (hin : j + 1 < P.n) (hv : k.obs.arr 1 (j : Int) = some v) (hw : k.obs.arr 2 (j : Int) = some w) :
+    theta_chain_comput_strategy_loop1_body obs P.row oracle fuel P.n ea k =
+      { k with i := (j : Int) + 1 + 1, level := k.level.set ((j : Int) + 1) (b : Int),
+               obs := { ((k.obs.put 1 ((j : Int) + 1) (v - b)).put 2 ((j : Int) + 1) (w - b)) with
+                        dbls := k.obs.dbls ++ [(1, (j : Int) + 1, (b : Int))] } } := by
+  have hlin : k.level.inb ((j : Int) + 1) = true := by simp [IArr.inb, hls]; omega
+  have hi0 : (0 : Int) ≤ (j : Int) := by omega
+  have hi1 : (0 : Int) ≤ (j : Int) + 1 := by omega
+  have hi2 : (j : Int) < (P.n : Int) := by omega
+  have hi3 : (j : Int) + 1 < (P.n : Int) := by omega
+  have hi4 : j < P.n := by omega
+  have hne : ¬ ((j : Int) = (j : Int) + 1) := by omega
+  simp [theta_chain_comput_strategy_loop1_body, ThetaSt.step, ThetaSt.live, obs, hf, hb, hi, hrd, EvKind.dblIterP,
+    ev_dblP_s, OSt.inb, OSt.put, hs1, hs2, hv, hw, hlin, hi0, hi1, hi2, hi3, hi4, hin, hne]
+
+/-- the `for (i = 1; i < len_list; i++)` building `points1/2[]` and `level[]` ≙ `buildPts` -/
+theorem pts_sim (g : Nat → Option Nat) : ∀ (cnt f j : Nat) (k : ThetaSt OSt) (m : St), RelQ P g k m →
+    k.i = (j : Int) + 1 → m.lenList = (j : Int) + 1 + (cnt : Int) → cnt ≤ f →
+    (buildPts P cnt (j + 1) m).err = none →
+    RelQ P g
+      (whileF (ThetaSt.live obs)
+        (fun s => match theta_chain_comput_strategy_loop1_cond obs P.row oracle fuel P.n ea s with | .ok b => b | .error _ => true)
+        (fun s => match theta_chain_comput_strategy_loop1_cond obs P.row oracle fuel P.n ea s with
+          | .ok _ => theta_chain_comput_strategy_loop1_body obs P.row oracle fuel P.n ea s | .error f => s.fail f)
+        (fun s => s.fail .fuel) f k)
+      (buildPts P cnt (j + 1) m) := by
+  intro cnt
+  induction cnt with
+  | zero =>
+    intro f j k m R hi hl _ _
+    rw [whileF_stop _ _ _ _ _ _ (by simp [theta_chain_comput_strategy_loop1_cond, hi, R.ll, hl])]
+    exact R
+  | succ cnt ih =>
+    intro f j k m R hi hl hf he
+    obtain ⟨f', rfl⟩ : ∃ f', f = f' + 1 := ⟨f - 1, by omega⟩
+    obtain ⟨h, o, _, hin, ho, hstep⟩ := buildPts_inv P cnt (j + 1) m R.me he
+    have hj : j + 1 - 1 = j := by omega
+    simp only [hj] at h ho hstep
+    have hlive : ThetaSt.live obs k = true := by simp [ThetaSt.live, obs, R.kf, R.kb]
+    rw [whileF_step _ _ _ _ _ _ (by simp [theta_chain_comput_strategy_loop1_cond, hi, R.ll, hl, hlive]; omega)]
+    have hbody : (match theta_chain_comput_strategy_loop1_cond obs P.row oracle fuel P.n ea k with
+        | .ok _ => theta_chain_comput_strategy_loop1_body obs P.row oracle fuel P.n ea k | .error f => k.fail f) =
+        theta_chain_comput_strategy_loop1_body obs P.row oracle fuel P.n ea k := by
+      simp [theta_chain_comput_strategy_loop1_cond]
+    rw [hbody, body1 P oracle fuel ea k j P.row[j] o o R.kf R.kb hi (rdRow_ok P.row j h) R.s1 R.s2 R.lvs hin
+      (by rw [R.a1, ho]) (by rw [R.a2, ho])]
+    rw [hstep] at he ⊢
+    refine ih f' (j + 1) _ _ ?_ (by simp) (by simp only [ptsd]; rw [hl]; push_cast; omega) (by omega) he
+    have hne1 : ¬ ((2 : Int) = 1) := by omega
+    constructor
+    · exact R.kf
+    · simp [OSt.put, R.kb]
+    · exact R.me
+    · exact R.ix
+    · exact R.ll
+    · exact R.lc
+    · exact R.ad
+    · simp [IArr.set, R.lvs]
+    · intro i
+      simp only [IArr.set, ptsd, SqiModel.ThetaChain.upd]
+      by_cases hi' : i = j + 1
+      · subst hi'; simp
+      · have : ¬ (i : Int) = (j : Int) + 1 := by omega
+        simp [hi', this, R.lvg]
+    · simp [OSt.put, R.s1]
+    · simp [OSt.put, R.s2]
+    · simp [OSt.put, R.s3]
+    · simp [OSt.put, R.s4]
+    · simp [OSt.put, R.s5]
+    · intro i
+      simp only [OSt.put, ptsd, SqiModel.ThetaChain.upd]
+      by_cases hi' : i = j + 1
+      · subst hi'; simp
+      · have : ¬ (i : Int) = (j : Int) + 1 := by omega
+        simp [hi', this, R.a1]
+    · intro i
+      simp only [OSt.put, ptsd, SqiModel.ThetaChain.upd]
+      by_cases hi' : i = j + 1
+      · subst hi'; simp
+      · have : ¬ (i : Int) = (j : Int) + 1 := by omega
+        simp [hi', this, R.a2]
+    · intro i; simp [OSt.put, R.a3]
+    · intro i; simp [OSt.put, R.a4]
+    · simp [OSt.put, R.tg]
+    · have := R.lg
+      simp only [logs, Prod.mk.injEq] at this
+      simp [OSt.put, ptsd, logs_append, this.1, this.2.1, this.2.2, logs, mDbls, mSteps, mKers]
+end Loop1
+
 end SqiProofs.SkelThetaSim
